@@ -177,7 +177,7 @@ def run_rotate(ck):
             c["id"] = 1000000 + i
         cases += cs
     outp = os.path.join(ck.work, "rotate.jsonl")
-    args = ["--seed", ck.seed, "--n", ck.n(1000, 12000), "--out", outp]
+    args = ["--seed", ck.seed, "--n", ck.n(1500, 12000), "--out", outp]
     if not ck.quick():
         args += ["--exhaustive", 200]
     rc, out = ck.go_run("rotate", args)
